@@ -27,7 +27,7 @@ func init() {
 var profC04 = Profile{
 	MaxBars: 7, MinBars: 1, MaxSteps: 40, Refresh: []string{"manual", "manual", "manual", "manual", "manual", "none"}, QLens: []int{-1},
 	Pop: 35, Queue: 15, Prio: true, PrioOnFinished: true, Ext: 30, Text: 3, Rm: 30, NoPop: 20, AbortW: 2, TicksW: 10,
-	Pty: 55, PtyRowsMax: 8, Delay: 15, Fillers: []string{"tag", "bar", "spinner", "spinnerv"}, LateAdd: true, Cancel: 5,
+	Pty: 55, PtyRowsMax: 8, Delay: 15, Fillers: []string{"tag", "bar", "spinner", "spinnerv"}, LateAdd: true, Cancel: 5, PrioMidRender: 10,
 }
 
 func genC04(t *rapid.T) interface{} {
@@ -102,7 +102,7 @@ func runC04(ci interface{}) Result {
 		dumpHang(sc, tr)
 		return r
 	}
-	r.Classes = append(r.Classes, "refresh:"+sc.Cfg.Refresh)
+	r.Classes = append(append(r.Classes, "refresh:"+sc.Cfg.Refresh), featureClasses(sc)...)
 	if sc.Cfg.Refresh == "none" {
 		// not a terminal, no refresh requested: no bar rows, no cursor controls
 		for k, c := range tr.Chunks {
